@@ -178,6 +178,8 @@ def replay(pid: str, spec: dict, path: str) -> int:
     import impl
     import monitors
     d = json.load(open(path))
+    if spec['kind'] == 'eval':
+        return replay_eval(pid, d)
     mons = [monitors.ALL[m]() for m in spec.get('monitors', []) if m in monitors.ALL]
     impl.replay_script(d['script'], mons, d.get('valid'))
     vs = [v for m in mons for v in m.violations if v['property'] == pid]
@@ -191,3 +193,197 @@ def replay(pid: str, spec: dict, path: str) -> int:
         return 1
     print(f'not reproduced on the current tree: {d.get("kind")} {d.get("clause", "")}')
     return 0
+
+
+# ------------------------------------------------------------------------------- C04 / C05
+EVAL_ASSUME = [
+    'the content of the lookup tables is compared exhaustively with the model on every run; its agreement '
+    'with the rules of poker is established by enumeration against harness/pyspec.py (thorough tier: every hand '
+    'of every deck), not by a Lean proof',
+]
+TYPES_OF_LOOKUP = {
+    'StandardLookup': ['StandardHighHand', 'StandardLowHand'],
+    'ShortDeckHoldemLookup': ['ShortDeckHoldemHand'],
+    'EightOrBetterLookup': ['EightOrBetterLowHand'],
+    'RegularLookup': ['RegularLowHand'],
+    'BadugiLookup': ['BadugiHand'],
+    'StandardBadugiLookup': ['StandardBadugiHand'],
+    'KuhnPokerLookup': ['KuhnPokerHand'],
+}
+
+
+def _exh(args):
+    import evalcheck
+    tn, limit = args
+    n, bad = evalcheck.exhaustive_order(tn, limit)
+    return tn, n, bad
+
+
+def decide_c04(pid, spec, tier, seed, theorems, t0):
+    import evalcheck as ec
+    from concurrent.futures import ProcessPoolExecutor
+    total, tdiffs = ec.compare_tables()
+    ddiffs = ec.compare_decl()
+    nsamp = 60000 if tier == 'thorough' else 6000
+    sh = ec.sample_hands(seed, nsamp)
+    # exhaustive enumeration against the independent ranking
+    small = ['KuhnPokerHand', 'BadugiHand', 'StandardBadugiHand']
+    full = small + ['ShortDeckHoldemHand', 'EightOrBetterLowHand', 'RegularLowHand', 'StandardHighHand',
+                    'StandardLowHand', 'GreekHoldemHand', 'OmahaHoldemHand', 'OmahaEightOrBetterLowHand']
+    todo = [(t, None) for t in (full if tier == 'thorough' else small)]
+    if tier != 'thorough':
+        todo += [(t, 150000) for t in full if t not in small]
+    suspects = set()
+    for d in tdiffs:
+        suspects.update(TYPES_OF_LOOKUP.get(d['table'], []))
+    for d in ddiffs:
+        suspects.add(d['hand_type'])
+    todo = [(t, None) for t in suspects] + [x for x in todo if x[0] not in suspects]
+    with ProcessPoolExecutor(max_workers=16) as ex:
+        exh = list(ex.map(_exh, todo))
+    viols = list(sh['viols'])
+    enumerated = 0
+    for tn, n, bad in exh:
+        enumerated += n
+        for b in bad[:1]:
+            viols.append(dict(property='C04', clause='exhaustive_' + b[0], signature=f'{b[0]}:{tn}',
+                              detail=f'{tn}: {b}', input=(tn,) + tuple(str(x) for x in b[1:3])))
+    rc = 0
+    replay = None
+    diverged = bool(tdiffs or ddiffs or sh['diffs'])
+    if viols:
+        v = viols[0]
+        replay = fw.write_replay(pid, seed, dict(kind='violation', property=pid, clause=v['clause'],
+                                                  signature=v['signature'], detail=v['detail'], input=v['input']))
+        print(f'VIOLATION property={pid} replay={replay}')
+        rc = 1
+    elif diverged:
+        first = (tdiffs or ddiffs or sh['diffs'])[0]
+        replay = fw.write_replay(pid, seed, dict(kind='correspondence', property=pid,
+                                                  theorems_no_longer_tied=[n for n, _ in theorems],
+                                                  first_difference=first, enumerated_hands=enumerated))
+        print(f'VIOLATION property={pid} replay={replay} no-failing-input-found')
+        rc = 1
+    wall = time.time() - t0
+    cov = dict(obligations=len(theorems), discharged=len(theorems),
+               checker_cmd=f'cd lean && lake build PK && lake env lean PK/Audit/{pid}.lean',
+               trusted_base=fw.TRUSTED_BASE, theorems=[dict(name=n, axioms=ax) for n, ax in theorems],
+               evaluations=total + sh['count'] * 2 + enumerated, distinct_nontrivial=total,
+               rule='all entries of the nine live lookup tables compared with the model (exhaustive=True for the tables); '
+                    'Hand(cards)/<,==,hash sampled through the real classes; hands enumerated against harness/pyspec.py',
+               exhaustive=True,
+               correspondence=dict(table_entries=total, table_differences=len(tdiffs), class_attribute_differences=len(ddiffs),
+                                   sampled_hand_constructions=sh['count'] * 2, sampled_differences=len(sh['diffs'])),
+               enumeration={tn: dict(hands=n, disagreements=len(bad)) for tn, n, bad in exh},
+               samples=sh['samples'])
+    fw.write_evidence(pid, tier, seed, cov, EVAL_ASSUME, wall, len(viols) + (1 if diverged and not viols else 0))
+    print(f'{pid}: theorems={len(theorems)} table_entries={total} table_diffs={len(tdiffs)} sampled={sh["count"] * 2} '
+          f'sample_diffs={len(sh["diffs"])} enumerated={enumerated} spec_violations={len(viols)} wall={wall:.1f}s '
+          f'-> {"FAIL" if rc else "ok"}')
+    return rc
+
+
+def decide_c05(pid, spec, tier, seed, theorems, t0):
+    import evalcheck as ec
+    from concurrent.futures import ProcessPoolExecutor
+    n = 16 if tier == 'thorough' else 4
+    per = 12000 if tier == 'thorough' else 3000
+    ddiffs = ec.compare_decl()
+    with ProcessPoolExecutor(max_workers=16) as ex:
+        rs = list(ex.map(_evalsample, [(seed * 1000 + i, per) for i in range(n)]))
+    diffs = [d for r in rs for d in r['diffs']]
+    viols = [v for r in rs for v in r['viols']]
+    count = sum(r['count'] for r in rs)
+    rc = 0
+    if viols:
+        v = viols[0]
+        replay = fw.write_replay(pid, seed, dict(kind='violation', property=pid, clause=v['clause'],
+                                                  signature=v['signature'], detail=v['detail'], input=v['input']))
+        print(f'VIOLATION property={pid} replay={replay}')
+        rc = 1
+    elif diffs or ddiffs:
+        # search harder with the spec monitor before giving up
+        with ProcessPoolExecutor(max_workers=16) as ex:
+            more = list(ex.map(_evalsample, [(seed * 1000 + 500 + i, 20000) for i in range(16)]))
+        mv = [v for r in more for v in r['viols']]
+        count += sum(r['count'] for r in more)
+        if mv:
+            v = mv[0]
+            replay = fw.write_replay(pid, seed, dict(kind='violation', property=pid, clause=v['clause'],
+                                                      signature=v['signature'], detail=v['detail'], input=v['input']))
+            print(f'VIOLATION property={pid} replay={replay}')
+        else:
+            replay = fw.write_replay(pid, seed, dict(kind='correspondence', property=pid,
+                                                      theorems_no_longer_tied=[n for n, _ in theorems],
+                                                      first_difference=(diffs or ddiffs)[0]))
+            print(f'VIOLATION property={pid} replay={replay} no-failing-input-found')
+        rc = 1
+    wall = time.time() - t0
+    cov = dict(obligations=len(theorems), discharged=len(theorems),
+               checker_cmd=f'cd lean && lake build PK && lake env lean PK/Audit/{pid}.lean',
+               trusted_base=fw.TRUSTED_BASE, theorems=[dict(name=n, axioms=ax) for n, ax in theorems],
+               evaluations=count, distinct_nontrivial=count,
+               rule='(hand type, hole, board) triples generated per type with 0-7 hole and 0-5 board cards and card '
+                    'patterns biased to low boards, suited runs and paired boards; from_game compared with the model '
+                    '(entry index, label and chosen cards) and with the best legal combination under harness/pyspec.py',
+               correspondence=dict(inputs=count, differences=len(diffs), class_attribute_differences=len(ddiffs)),
+               samples=rs[0]['samples'])
+    fw.write_evidence(pid, tier, seed, cov, EVAL_ASSUME, wall, len(viols) + (1 if rc and not viols else 0))
+    print(f'{pid}: theorems={len(theorems)} inputs={count} diffs={len(diffs)} spec_violations={len(viols)} '
+          f'wall={wall:.1f}s -> {"FAIL" if rc else "ok"}')
+    return rc
+
+
+def _evalsample(args):
+    import evalcheck
+    return evalcheck.sample_eval(*args)
+
+
+def replay_eval(pid, d):
+    import evalcheck as ec
+    import pyspec
+    inp = d.get('input')
+    if not inp:
+        print('replay file carries no concrete input (correspondence failure)')
+        return 0
+    tn = inp[0]
+    if pid == 'C05':
+        line, h = ec.impl_eval(tn, inp[1] if inp[1] != '=' else '', inp[2] if inp[2] != '=' else '')
+        want = pyspec.best_key(tn, inp[1] if inp[1] != '=' else '', inp[2] if inp[2] != '=' else '')
+        got = None if h is None else pyspec.hand_key(tn, h.cards)
+        if got != want:
+            print(f'reproduced: property=C05 {tn} hole {inp[1]} board {inp[2]}: implementation {line}, best legal key {want}')
+            return 1
+        print('not reproduced on the current tree')
+        return 0
+    cls = impl_types()[tn]
+    try:
+        hs = [cls(c) for c in inp[1:]]
+    except Exception as e:  # noqa: BLE001
+        hs = None
+        err = e
+    keys = [pyspec.hand_key(tn, c) for c in inp[1:]]
+    if hs is None:
+        if all(k is not None for k in keys):
+            print(f'reproduced: property=C04 {tn}{inp[1:]}: rejected ({type(err).__name__}) but valid by the rules')
+            return 1
+        print('not reproduced on the current tree')
+        return 0
+    if len(hs) == 2 and None not in keys:
+        a, b = hs
+        if (a < b) != (keys[0] < keys[1]) or (a == b) != (keys[0] == keys[1]):
+            print(f'reproduced: property=C04 {tn}: {inp[1]} vs {inp[2]}: implementation <:{a < b} ==:{a == b}, '
+                  f'rules <:{keys[0] < keys[1]} ==:{keys[0] == keys[1]}')
+            return 1
+    print('not reproduced on the current tree')
+    return 0
+
+
+def impl_types():
+    import impl
+    return impl.HAND_TYPES
+
+
+for _pid, _fn in (('C04', decide_c04), ('C05', decide_c05)):
+    if os.path.exists(os.path.join(fw.LEAN, 'PK', 'Audit', f'{_pid}.lean')):
+        PROPS[_pid] = dict(kind='eval', decide=_fn, monitors=[])
